@@ -50,6 +50,14 @@ def h12_sim(c, n=2):
                 pkg = fl.handler_queue.pop()
             else:
                 for i in range(n):
+                    if kind == OrderPackageType.REPLACE and c.choose("o%d_type" % i, ["LIMIT", "LIMIT_ON_CLOSE"]) == "LIMIT_ON_CLOSE":
+                        # (the API lets a limit-on-close order be re-priced; the simulated exchange refuses it at the cancel stage)
+                        o = cm.mk_loc(strategy, "BACK", 10.0, 2.0)
+                        cm.place_resting(fl, market, strategy, o, 100 + i, status=lc.TRANSIENT[kind])
+                        o.update_data["new_price"] = 3.0
+                        orders.append(o)
+                        c.cover("limit-on-close-in-replace-package")
+                        continue
                     o, d = ss.resting_limit(c, "o%d" % i, fl, market, strategy, 100 + i, status=lc.TRANSIENT[kind], price=2.0, persistence="LAPSE",
                                             max_frags=0, allow_cancelled=False, side="BACK")
                     if kind == OrderPackageType.UPDATE:
@@ -62,7 +70,7 @@ def h12_sim(c, n=2):
                 pkg = ss.package(fl, market, orders, kind)
             meanwhile = []
             for i, o in enumerate(orders):
-                how = c.choose("o%d_meanwhile" % i, ["nothing", "matched", "lapsed"]) if kind != OrderPackageType.PLACE else "nothing"
+                how = c.choose("o%d_meanwhile" % i, ["nothing", "matched", "lapsed"]) if (kind != OrderPackageType.PLACE and o.order_type.ORDER_TYPE.name == "LIMIT") else "nothing"
                 meanwhile.append(how)
                 sim = o.simulated
                 if how == "matched":
@@ -115,7 +123,7 @@ HARNESSES = [
     Harness("H12-trade", h12_trade, pattern="P5 (late response on a completed trade) + P3", requires=["trade-reused", "all-complete"], outside=OUT, selfcheck=False),
     Harness("H12-live", h12_live, quick=dict(n=2), thorough=dict(n=3, kinds=[OrderPackageType.CANCEL, OrderPackageType.REPLACE]), pattern="P5 fault schedule as a variable",
             requires=["handled", "retries-exhausted", "completed-meanwhile", "timeout", "cancel-reports-misordered"], wall_s=(300, 3000), max_paths=(300000, 3000000), outside=OUT),
-    Harness("H12-sim", h12_sim, quick=dict(n=2), thorough=dict(n=3), pattern="P5 fault schedule as a variable", requires=["handled", "completed-meanwhile", "replacement"],
+    Harness("H12-sim", h12_sim, quick=dict(n=2), thorough=dict(n=3), pattern="P5 fault schedule as a variable", requires=["handled", "completed-meanwhile", "replacement", "limit-on-close-in-replace-package"],
             wall_s=(300, 3000), outside=OUT),
 ]
 META = {"assumptions": ["handler granularity; time.sleep (retry back-off) stubbed; ThreadPoolExecutor.submit inlined"]}
